@@ -347,3 +347,122 @@ Record sinv (s : sst) : Prop := mksinv {
   i_zero : forall f, In f (zeroq s) -> exists t, f = FCtl t;
   i_sq : forall x f, In f (sq s x) -> fr_sid f = x /\ (forall t, f <> FCtl t) /\ wf_fr f
 }.
+
+(* ======================================================================================================
+   Serve-loop level (live connection): the CLIENT's accounting of what the server may send (RFC 7540 6.9).
+   A scripted client talks to the real ServeConn; a handler writes `n` body octets per request.  Script steps:
+     LReq sid n   request on stream sid for n octets           LWin sid inc  WINDOW_UPDATE (sid 0 = connection)
+     LSetIW v     SETTINGS_INITIAL_WINDOW_SIZE = v             LSetMF v      SETTINGS_MAX_FRAME_SIZE = v
+     LRst sid     RST_STREAM
+   After every step the client waits (PING barriers) and records the frames received, in order:
+     EData sid len es | EAck (SETTINGS ack) | EDead (GOAWAY / connection closed).
+   A SETTINGS change takes effect for the sender of DATA when it acknowledges it (6.5.3): frames before the ack
+   are measured with the old value, frames after it with the new one.  On a change of the initial window size
+   every stream that still has a window (not ended, not reset) is adjusted by the difference, possibly below 0
+   (6.9.2).  The amount of DATA per step depends on goroutine timing, so this is a validator of traces (any
+   frame order and splitting is allowed), not a function. *)
+Inductive lstep :=
+| LReq (sid n : Z) | LWin (sid inc : Z) | LSetIW (v : Z) | LSetMF (v : Z) | LRst (sid : Z).
+Inductive levent := EData (sid len : Z) (es : bool) | EAck | EDead.
+
+(* per stream: id, send window as the client computes it, octets of the response body still expected,
+   status 0 = open, 1 = reset by the client during the current step (frames already in flight tolerated), 2 = closed *)
+Record lstream := mkls { ls_id : Z; ls_w : Z; ls_rem : Z; ls_st : Z }.
+Record lstate := mkl {
+  l_cw : Z;                       (* connection send window *)
+  l_iw : Z;                       (* initial window size acknowledged by the server *)
+  l_mf : Z;                       (* max frame size acknowledged by the server *)
+  l_pend : list (bool * Z);       (* SETTINGS sent and not yet acknowledged: (true, v) = initial window, (false, v) = max frame *)
+  l_last_iw : Z;                  (* latest initial window size sent (new streams start with it) *)
+  l_str : list lstream;
+  l_dead : bool
+}.
+Definition lstate0 : lstate := mkl 65535 65535 16384 [] 65535 [] false.
+
+Definition map_streams (f : lstream -> lstream) (s : lstate) : lstate :=
+  mkl (l_cw s) (l_iw s) (l_mf s) (l_pend s) (l_last_iw s) (map f (l_str s)) (l_dead s).
+Fixpoint find_stream (sid : Z) (l : list lstream) : option lstream :=
+  match l with
+  | [] => None
+  | x :: r => if ls_id x =? sid then Some x else find_stream sid r
+  end.
+
+(* the client's action at the beginning of a step *)
+Definition lact (s : lstate) (a : lstep) : lstate :=
+  match a with
+  | LReq sid n =>
+    match find_stream sid (l_str s) with
+    | Some _ => s
+    | None => mkl (l_cw s) (l_iw s) (l_mf s) (l_pend s) (l_last_iw s)
+                  (mkls sid (l_last_iw s) n 0 :: l_str s) (l_dead s)
+    end
+  | LWin sid inc =>
+    if sid =? 0 then mkl (l_cw s + inc) (l_iw s) (l_mf s) (l_pend s) (l_last_iw s) (l_str s) (l_dead s)
+    else map_streams (fun x => if ls_id x =? sid then mkls (ls_id x) (ls_w x + inc) (ls_rem x) (ls_st x) else x) s
+  | LSetIW v => mkl (l_cw s) (l_iw s) (l_mf s) (l_pend s ++ [(true, v)]) v (l_str s) (l_dead s)
+  | LSetMF v => mkl (l_cw s) (l_iw s) (l_mf s) (l_pend s ++ [(false, v)]) (l_last_iw s) (l_str s) (l_dead s)
+  | LRst sid =>
+    map_streams (fun x => if (ls_id x =? sid) && (ls_st x =? 0) then mkls (ls_id x) (ls_w x) (ls_rem x) 1 else x) s
+  end.
+
+(* the server acknowledged SETTINGS_INITIAL_WINDOW_SIZE = v: every stream that still has a window moves by d *)
+Definition ack_iw (s : lstate) (r : list (bool * Z)) (v d : Z) : option lstate :=
+  Some (mkl (l_cw s) v (l_mf s) r (l_last_iw s)
+            (map (fun y => if ls_st y =? 2 then y else mkls (ls_id y) (ls_w y + d) (ls_rem y) (ls_st y)) (l_str s))
+            (l_dead s)).
+
+(* one received frame; None = the server violated the property *)
+Definition levt (s : lstate) (e : levent) : option lstate :=
+  if l_dead s then Some s else
+  match e with
+  | EDead => Some (mkl (l_cw s) (l_iw s) (l_mf s) (l_pend s) (l_last_iw s) (l_str s) true)
+  | EAck =>
+    match l_pend s with
+    | [] => None                                                    (* an ack for nothing *)
+    | (true, v) :: r =>
+      let d := v - l_iw s in
+      ack_iw s r v d
+    | (false, v) :: r => Some (mkl (l_cw s) (l_iw s) v r (l_last_iw s) (l_str s) (l_dead s))
+    end
+  | EData sid len es =>
+    match find_stream sid (l_str s) with
+    | None => None                                                  (* DATA on a stream never requested *)
+    | Some x =>
+      if ls_st x =? 2 then None                                     (* DATA after the stream ended or was reset *)
+      else if (len <? 0) || (len >? ls_rem x) then None             (* more octets than the response has *)
+      else if negb (len =? 0) && ((len >? ls_w x) || (len >? l_cw s) || (len >? l_mf s)) then None
+      else if es && negb (ls_rem x - len =? 0) then None            (* END_STREAM before the whole body *)
+      else
+        Some (mkl (l_cw s - len) (l_iw s) (l_mf s) (l_pend s) (l_last_iw s)
+                  (map (fun y => if ls_id y =? sid
+                                 then mkls sid (ls_w y - len) (ls_rem y - len) (if es then 2 else ls_st y)
+                                 else y) (l_str s))
+                  (l_dead s))
+    end
+  end.
+
+
+(* end of a step: every SETTINGS sent was acknowledged (or the connection is gone); streams reset in this step are closed *)
+Definition lend (s : lstate) : option lstate :=
+  if l_dead s then Some s
+  else match l_pend s with
+       | [] => Some (map_streams (fun x => if ls_st x =? 1 then mkls (ls_id x) (ls_w x) (ls_rem x) 2 else x) s)
+       | _ => None
+       end.
+
+Fixpoint levts (s : lstate) (es : list levent) {struct es} : option lstate :=
+  match es with
+  | [] => Some s
+  | e :: r => match levt s e with Some s' => levts s' r | None => None end
+  end.
+
+Fixpoint lvalidate (s : lstate) (script : list lstep) (obs : list (list levent)) {struct script} : bool :=
+  match script, obs with
+  | [], [] => true
+  | a :: r, es :: obs' =>
+    match levts (lact s a) es with
+    | Some s1 => match lend s1 with Some s2 => lvalidate s2 r obs' | None => false end
+    | None => false
+    end
+  | _, _ => false
+  end.
